@@ -323,3 +323,88 @@ func c07VersionStress(rng *Rng, clients, perClient int) {
 	emit("c07", "GOOD", hs(fmt.Sprintf("%d simultaneous versioned uploads: ids distinct, each id serves its own bytes", len(seen))))
 	s.end()
 }
+
+// mpSlowPart: a part upload whose body arrives slowly (gated reader) —
+// (a) must not hold up other multipart requests (on another upload, another key, listings);
+// (b) when it re-uploads part 1 while a complete of the same upload (listing part 1 with the ETag of its
+//     previous content) runs to completion, it cannot also be acknowledged: either the complete is
+//     refused for a stale ETag, or the part upload finds the upload gone.
+// Verdicts are computed here (they need no model state).
+func mpSlowPart(prop, kind string) {
+	s := newSess(prop, kind, SessOpts{})
+	emit(prop, "NOMODEL")
+	b := singleBucketName
+	if !isSingle(kind) {
+		s.MkBucket(b)
+	}
+	verdict := func(ok bool, what string) {
+		if ok {
+			emit(prop, "GOOD", hs(what))
+		} else {
+			emit(prop, "BAD", hs(what))
+		}
+	}
+	partPath := func(k, id string, pn int) string {
+		return "/" + b + "/" + k + "?uploadId=" + queryEscape(id) + "&partNumber=" + strconv.Itoa(pn)
+	}
+	// (a)
+	{
+		u1 := s.Initiate(b, "slow", nil)
+		u2 := s.Initiate(b, "other", nil)
+		body := []byte("a part whose bytes take their time")
+		gr := &gatedReader{data: append([]byte{}, body...), entered: make(chan struct{}), release: make(chan struct{})}
+		done := make(chan Resp, 1)
+		go func() {
+			done <- do(s.h, Req{Method: "PUT", Path: partPath("slow", u1, 1), Reader: gr, Header: [][2]string{{"Content-Length", strconv.Itoa(len(body))}}})
+		}()
+		entered := waitOr(gr.entered, 5*time.Second)
+		_, h1 := doDeadline(s.h, Req{Method: "PUT", Path: partPath("other", u2, 1), Body: []byte("quick part")}, 5*time.Second)
+		_, h2 := doDeadline(s.h, Req{Method: "POST", Path: "/" + b + "/third?uploads", Body: []byte{}}, 5*time.Second)
+		_, h3 := doDeadline(s.h, Req{Method: "GET", Path: "/" + b + "?uploads"}, 5*time.Second)
+		_, h4 := doDeadline(s.h, Req{Method: "GET", Path: "/" + b + "/other?uploadId=" + queryEscape(u2)}, 5*time.Second)
+		close(gr.release)
+		var r Resp
+		select {
+		case r = <-done:
+		case <-time.After(5 * time.Second):
+			entered = false
+		}
+		verdict(entered && !h1 && !h2 && !h3 && !h4, fmt.Sprintf("%s: while the body of one part upload is in flight, part uploads of other uploads, initiate, list-uploads and list-parts are served (blocked: part=%v initiate=%v list-uploads=%v list-parts=%v)", kind, h1, h2, h3, h4))
+		verdict(r.Status == 200, "the slow part upload itself completes")
+		nontrivial(kind + "|slow-part-does-not-block")
+	}
+	// (b)
+	{
+		u := s.Initiate(b, "race", nil)
+		eA := s.UploadPart(b, "race", u, 1, []byte("first content of part one"))
+		bodyB := []byte("second content of part one")
+		gr := &gatedReader{data: append([]byte{}, bodyB...), entered: make(chan struct{}), release: make(chan struct{})}
+		done := make(chan Resp, 1)
+		go func() {
+			done <- do(s.h, Req{Method: "PUT", Path: partPath("race", u, 1), Reader: gr, Header: [][2]string{{"Content-Length", strconv.Itoa(len(bodyB))}}})
+		}()
+		if waitOr(gr.entered, 5*time.Second) {
+			xmlb := "<CompleteMultipartUpload><Part><PartNumber>1</PartNumber><ETag>" + xmlEsc(eA) + "</ETag></Part></CompleteMultipartUpload>"
+			rc, hung := doDeadline(s.h, Req{Method: "POST", Path: "/" + b + "/race?uploadId=" + queryEscape(u), Body: []byte(xmlb)}, 5*time.Second)
+			close(gr.release)
+			var rp Resp
+			select {
+			case rp = <-done:
+			case <-time.After(5 * time.Second):
+				hung = true
+			}
+			if hung {
+				// the complete waited for the slow part (also a consistent behaviour) or something is stuck
+				verdict(rp.Status != 0, kind+": a complete overlapping a slow re-upload of one of its parts does not finish")
+			} else {
+				verdict(!(rc.Status == 200 && rp.Status == 200), fmt.Sprintf("%s: a complete naming part 1 by the ETag of its first content was acknowledged (%d) and so was the overlapping re-upload of part 1 (%d): no order of the two explains both", kind, rc.Status, rp.Status))
+				g := do(s.h, Req{Method: "GET", Path: "/" + b + "/race"})
+				if rc.Status == 200 {
+					verdict(g.Status == 200 && string(g.Body) == "first content of part one", "the completed object holds the content the complete named")
+				}
+			}
+		}
+		nontrivial(kind + "|slow-part-vs-complete")
+	}
+	s.end()
+}
